@@ -80,9 +80,10 @@ pub fn varint_seq(cx: &mut Ctx, s: usize, signed: bool, kind: u64, n: usize, see
     cx.sum.dist(&format!("varint_seq_len={}", n));
     if auto { cx.sum.dist(&format!("auto_strategy={}", sname)); }
     let as_u: Vec<u64> = if signed { xs_i.iter().map(|&x| x as u64).collect() } else { xs_u.clone() };
+    // the chooser guards group varint by max < 2^32: a wide value under "auto" is the chooser's defect, not the recorded finding
     let class = match chosen {
         2 if !signed && known_delta_u(&xs_u) => Some("delta_u64_big_difference"),
-        3 if known_gv(&as_u) => Some("group_varint_wide_value"),
+        3 if !auto && known_gv(&as_u) => Some("group_varint_wide_value"),
         _ => None,
     };
     let r = guarded(|| -> R<bool> {
